@@ -12,8 +12,16 @@ MC_Transforms.tla, TraceTransforms.tla)
    classes: constructor acceptance, required_keys/output_keys, outcome/type/keys/shapes/values of
    the application to Empty / Gradients / Jacobians inputs, ValueError for each of the 7 (8) wrong
    key sets, the regrouped/mirrored variants the laws speak about, rejection of every mutation.
+   ARGUMENT PRESENTATIONS: every key collection handed to a constructor (Init values, Select keys and
+   required_keys, Diagonalize considered, Accumulate required_keys; member lists of Stack /
+   Conjunction) is presented in a form drawn by the seeded rng from the table the specification
+   exports (list, tuple, set, dict view, iterator, generator expression / map / filter; any
+   enumeration order where the order is not part of the argument); every ATOM is built under EVERY
+   assignment of admissible forms.  The model's verdicts do not depend on the presentation
+   (PresentationFree in MC_Transforms).
 3. C->S: random deeper terms (depth <= 4) and random dictionaries are built and applied with the
-   real classes, logged, and validated by TLC (TraceTransforms.tla) with the same operators.
+   real classes (arguments presented in random forms, logged), logged, and validated by TLC
+   (TraceTransforms.tla) with the same operators.
 """
 
 from __future__ import annotations
@@ -34,9 +42,9 @@ PID = "C14"
 
 
 def _replay_term(item):
-    rec, = item
+    rec, seed = item
     torch.manual_seed(0)
-    return H.replay_term(rec)
+    return H.replay_term(rec, seed)
 
 
 def _replay_dict(item):
@@ -50,7 +58,12 @@ def term_key(t: dict) -> str:
 
 def report_term(ctx: Ctx, rec: dict, res: dict) -> None:
     for f in res["fails"]:
-        ctx.violation(f"term:{f['clause']}:{term_key(rec['term'])}", f["what"], {"kind": "term", "record": rec})
+        ctx.violation(f"term:{f['clause']}:{term_key(rec['term'])}", f["what"],
+                      {"kind": "term", "record": rec, "seed": ctx.seed, "forms": form_rows()})
+
+
+def form_rows() -> list[dict]:
+    return [{"op": o, "arg": a, **row} for (o, a), row in H.FORM_TABLE.items()]
 
 
 def report_dict(ctx: Ctx, rec: dict, res: dict, seed: int, idx: int) -> None:
@@ -74,6 +87,8 @@ def validate_episodes(ctx: Ctx, eps: list[dict]) -> None:
     by = {e["ep"]: e for e in eps}
     for rj in res.prints.get("REJECT", []):
         e = by[rj["ep"]]
+        if rj["clause"] == "malformed_presentation_in_log":
+            raise MachineryError(f"driver logged a presentation the specification does not admit: {e.get('pres')}")
         if e["kind"] == "term":
             ctx.violation(f"trace:{rj['clause']}:{H.term_str(e['term'])}",
                           f"recorded use of {H.term_str(e['term'])} rejected by Transforms.tla: {rj['clause']} "
@@ -92,6 +107,9 @@ def run(ctx: Ctx, replay: str | None) -> None:
                 "well-formed, depth >= 1 and with a specified outcome on some input (ok or must-raise); non-trivial "
                 "dictionary = at least one key")
     ctx.assumptions += [
+        "the key collections handed to Init/Select/Diagonalize/Accumulate are Iterable[Tensor]: any of list, tuple, set (where the "
+        "order is not part of the argument), dict view, iterator, generator; the member lists of Stack/Conjunction are Sequences "
+        "(list, tuple); one-shot iterables as member lists are outside the declared contract and not presented",
         "'cannot be created/built' = any exception; only the key-mismatch clause demands ValueError (DESIGN 9)",
         "a stage applied to a dictionary type it is not defined on (e.g. Diagonalize on Jacobians) is unspecified: "
         "only 'if it succeeds the keys are the declared ones' is checked",
@@ -102,7 +120,8 @@ def run(ctx: Ctx, replay: str | None) -> None:
         rec = json.load(open(replay))
         p = rec["payload"]
         if p["kind"] == "term":
-            report_term(ctx, p["record"], H.replay_term(p["record"]))
+            H.set_form_table(p.get("forms", []))
+            report_term(ctx, p["record"], H.replay_term(p["record"], p.get("seed", 0)))
         elif p["kind"] == "dict":
             report_dict(ctx, p["record"], _replay_dict((p["record"], p["seed"], p["idx"])), p["seed"], p["idx"])
         elif p["kind"] == "lca":
@@ -112,7 +131,7 @@ def run(ctx: Ctx, replay: str | None) -> None:
             if got != q["join"]:
                 ctx.violation(rec["key"], f"least common ancestor of {q['first']} and {q['second']} is {got}, not {q['join']}", p)
         else:
-            validate_episodes(ctx, [p["episode"] | {"ep": 1}])
+            validate_episodes(ctx, [{"pres": []} | p["episode"] | {"ep": 1}])
         return
 
     quick = ctx.tier == "quick"
@@ -154,7 +173,11 @@ def run(ctx: Ctx, replay: str | None) -> None:
     # ------------------------------------------------------------------ (1b) terms
     base = (SPEC_DIR / "MC_Transforms_quick.cfg").read_text()
     # stage 1: atoms and depth-1 terms only (complete), to draw the partner pool from
-    cfg1 = base.replace("MaxDepth = 2", "MaxDepth = 1").replace("ExportMod = 16", "ExportMod = 1")
+    # (the flat three-member lists over atoms are enumerated in this stage: half of the ordered triples in the
+    # quick tier, all of them in the thorough tier; stage 2 switches them off)
+    mod3 = 2 if quick else 1
+    cfg1 = (base.replace("MaxDepth = 2", "MaxDepth = 1").replace("ExportMod = 16", "ExportMod = 1")
+            .replace("Mod3 = 2", f"Mod3 = {mod3}").replace("Pick3 = 0", f"Pick3 = {ctx.seed % mod3}"))
     r1 = run_tlc("MC_Transforms", cfg_text=cfg1, workers=workers, seed=ctx.seed, timeout=1500)
     if r1.violated:
         raise MachineryError(f"MC_Transforms (depth 1): {r1.violated} violated in the model\n{r1.cex[:1500]}")
@@ -162,12 +185,25 @@ def run(ctx: Ctx, replay: str | None) -> None:
     d1 = r1.prints.get("TERM", [])
     if len(d1) != r1.distinct:
         raise MachineryError(f"depth-1 export incomplete: {len(d1)} lines for {r1.distinct} states")
+    forms = (r1.prints.get("FORMS") or [{}])[0].get("table")
+    if not forms or len(forms) != 7:
+        raise MachineryError(f"MC_Transforms did not export the table of argument presentations: {forms}")
+    H.set_form_table(forms)
+    one_shot_args = sorted(f"{o}.{a}" for (o, a), row in H.FORM_TABLE.items() if set(row["oneshot"]) & set(row["forms"]))
+    if len(one_shot_args) != 5 or any(len(row["forms"]) < 2 for row in H.FORM_TABLE.values()):
+        raise MachineryError(f"vacuous presentation table: {H.FORM_TABLE}")
+    ctx.extra["argument_presentations"] = {f"{o}.{a}": row["forms"] for (o, a), row in H.FORM_TABLE.items()}
     pool_mod = 12 if quick else 10
-    cands = sorted((t for t in d1 if t["ok"] and t["depth"] == 1), key=lambda t: json.dumps(t["term"], sort_keys=True))
+    n3 = [t for t in d1 if t["term"]["op"] in ("conj", "stack") and len(t["term"]["ts"]) == 3]
+    if len(n3) < 1000 or not any(t["ok"] for t in n3) or all(t["ok"] for t in n3):
+        raise MachineryError(f"vacuous three-member lists: {len(n3)} exported, {sum(1 for t in n3 if t['ok'])} well-formed")
+    ctx.count("three_member_lists_replayed", len(n3))
+    ctx.count("three_member_lists_ill_formed", sum(1 for t in n3 if not t["ok"]))
+    cands = sorted((t for t in d1 if t["ok"] and t["depth"] == 1 and len(t["term"].get("ts", [])) < 3), key=lambda t: json.dumps(t["term"], sort_keys=True))
     pool = [t["term"] for t in cands if t["hash"] % pool_mod == ctx.seed % pool_mod]
     mod1 = 12 if quick else 3
     mod2 = 1000 if quick else 800
-    cfg2 = (base.replace("Mod1 = 12", f"Mod1 = {mod1}").replace("Pick1 = 0", f"Pick1 = {ctx.seed % mod1}")
+    cfg2 = (base.replace("Pick3 = 0", "Pick3 = 3").replace("Mod1 = 12", f"Mod1 = {mod1}").replace("Pick1 = 0", f"Pick1 = {ctx.seed % mod1}")
             .replace("Mod2 = 1000", f"Mod2 = {mod2}").replace("Pick2 = 0", f"Pick2 = {ctx.seed % mod2}"))
     if not quick:
         cfg2 = cfg2.replace("MaxDepth = 2", "MaxDepth = 3").replace("ExportMod = 16", "ExportMod = 64")
@@ -191,13 +227,14 @@ def run(ctx: Ctx, replay: str | None) -> None:
     ctx.exhaustive = False
     ctx.extra["term_universe"] = {
         "atoms_and_depth1": "complete (every term exported and replayed)",
+        "three_member_lists": f"Conjunction/Stack([t, s, u]) over atoms requiring the same keys: 1/{mod3} of the ordered triples",
         "deeper": (f"depth 2: 1/{mod1} of the depth-1 terms x (59 atoms + {len(pool)} sampled depth-1 partners) x 8 "
                    f"wrappers" + ("" if quick else f"; depth 3: 1/{mod2} of the depth-2 terms, same partners")),
         "terms": len(recs), "well_formed": n_ok, "application_outcomes": sts,
         "ill_formed_exported_fraction": "1/16" if quick else "1/64 (all at depth <= 1)",
     }
-    items = [(t,) for t in recs]
-    for (t,), r in zip(items, pmap(_replay_term, items, chunksize=64)):
+    items = [(t, ctx.seed) for t in recs]
+    for (t, _), r in zip(items, pmap(_replay_term, items, chunksize=64)):
         ctx.evaluations += r["evals"]
         ctx.traces += 1
         if t["ok"] and t["depth"] >= 1 and any(a["st"] in ("ok", "raise") for a in t["apps"]):
